@@ -1254,5 +1254,74 @@ pub fn run(ctx: &mut RunCtx) {
         move |case: &Case, obs: &mut Obs| judge(case, &scratch2, restrict, obs),
     );
     ctx.note(format!("worker processes started: {}", WORKER_STARTS.load(Ordering::Relaxed)));
+
+    // ---- deep shapes once more in an unoptimised build of the same code: frames are several
+    // times larger there and the optimiser removes no recursion, so nesting that a release
+    // build survives can still overflow the stack of a debug build (tests, development).
+    let debug_exe = std::env::current_exe().ok().and_then(|p| p.parent().and_then(|d| d.parent()).map(|t| t.join("debug").join("check")));
+    let debug_exe = debug_exe.filter(|p| p.exists());
+    if debug_exe.is_none() {
+        ctx.note("debug-build worker (target/debug/check) not built: section deep-shapes-debug-build has no cases");
+    }
+    let mut dfixed: Vec<(String, String, u32)> = Vec::new();
+    if debug_exe.is_some() {
+        for (i, shape) in gram::DEEP_SHAPES.iter().enumerate() {
+            let ctx_name = gram::DEEP_CONTEXTS[i % gram::DEEP_CONTEXTS.len()];
+            for depth in [30u32, 300, 5_000, 200_000] {
+                dfixed.push((shape.to_string(), ctx_name.to_string(), cap_depth(shape, depth, restrict)));
+            }
+        }
+    }
+    let scratch3 = scratch.clone();
+    ctx.explore_with(
+        "deep-shapes-debug-build",
+        "every deep shape at depths 30 / 300 / 5000 / 200000 (capped per shape) executed by an unoptimised (dev profile) build of the worker, one process per case under ulimit -v; the process must exit normally; every case is non-trivial (nesting depth >= 30)",
+        0,
+        dfixed,
+        true,
+        || Just((String::new(), String::new(), 0u32)),
+        move |c: &(String, String, u32), obs: &mut Obs| {
+            let Some(exe) = debug_exe.as_ref() else { return Ok(()) };
+            obs.nontrivial();
+            obs.class(&format!("shape:{}", c.0));
+            let mut child = Command::new("sh")
+                .arg("-c")
+                .arg(format!("ulimit -v {WORKER_VMEM_KIB}; exec \"$0\" \"$@\""))
+                .arg(exe)
+                .arg("--worker")
+                .arg("c16-deep")
+                .arg(&scratch3)
+                .arg(&c.0)
+                .arg(&c.1)
+                .arg(c.2.to_string())
+                .stdin(Stdio::null())
+                .stdout(Stdio::null())
+                .stderr(Stdio::null())
+                .spawn()
+                .map_err(|e| Failure::new("harness-spawn", e.to_string()))?;
+            let start = std::time::Instant::now();
+            loop {
+                match child.try_wait() {
+                    Ok(Some(st)) => {
+                        use std::os::unix::process::ExitStatusExt;
+                        if let Some(sig) = st.signal() {
+                            fail!(format!("abort:{}:deep-nesting:{}:debug-build", signal_name(sig), c.0), "unoptimised worker died with {} on shape {} (context {}) nested {} deep", signal_name(sig), c.0, c.1, c.2);
+                        }
+                        return Ok(());
+                    }
+                    Ok(None) => {
+                        if start.elapsed().as_secs() > 600 {
+                            let _ = child.kill();
+                            let _ = child.wait();
+                            obs.class("debug-worker-slow");
+                            return Ok(()); // slowness of an unoptimised build is not judged
+                        }
+                        std::thread::sleep(std::time::Duration::from_millis(20));
+                    }
+                    Err(e) => return Err(Failure::new("harness-wait", e.to_string())),
+                }
+            }
+        },
+    );
     let _: Option<Failure> = None;
 }
